@@ -104,7 +104,7 @@ func (p *Program) fieldWrites() map[*types.Func]map[string]bool {
 }
 
 func (p *Program) newGuardAnalysis() *guardAnalysis {
-	return &guardAnalysis{p: p, pe: pathEnv{p.Info}, fw: p.fieldWrites()}
+	return &guardAnalysis{p: p, pe: pathEnv{p.Info, map[types.Object]ast.Expr{}}, fw: p.fieldWrites()}
 }
 
 // mayReturn for cfg.New: calls to panic and os.Exit do not return.
@@ -121,6 +121,7 @@ func (ga *guardAnalysis) mayReturn(call *ast.CallExpr) bool {
 func (ga *guardAnalysis) run(body *ast.BlockStmt, visit func(n ast.Node, f *facts)) {
 	ga.visit = visit
 	ga.caseTag = map[ast.Expr]ast.Expr{}
+	ga.collectBoolDefs(body)
 	ast.Inspect(body, func(n ast.Node) bool {
 		if _, ok := n.(*ast.FuncLit); ok {
 			return false
@@ -527,6 +528,106 @@ func (ga *guardAnalysis) bind(l ast.Expr, p string, rhs ast.Expr, f *facts) {
 			if f.maybeNil[q] {
 				f.maybeNil[p] = true
 			}
+		}
+	}
+}
+
+// collectBoolDefs fills pe.boolDef for body (see pathEnv).
+func (ga *guardAnalysis) collectBoolDefs(body *ast.BlockStmt) {
+	for k := range ga.pe.boolDef {
+		delete(ga.pe.boolDef, k)
+	}
+	info := ga.p.Info
+	nAssign := map[types.Object]int{}
+	lastWrite := map[types.Object]token.Pos{} // latest assignment to (something rooted at) the object
+	defs := map[types.Object]ast.Expr{}
+	root := func(e ast.Expr) *ast.Ident {
+		for {
+			switch x := ast.Unparen(e).(type) {
+			case *ast.Ident:
+				return x
+			case *ast.SelectorExpr:
+				e = x.X
+			case *ast.IndexExpr:
+				e = x.X
+			case *ast.StarExpr:
+				e = x.X
+			default:
+				return nil
+			}
+		}
+	}
+	note := func(l ast.Expr, rhs ast.Expr, pos token.Pos) {
+		id := root(l)
+		if id == nil {
+			return
+		}
+		o := info.ObjectOf(id)
+		if o == nil {
+			return
+		}
+		if pos > lastWrite[o] {
+			lastWrite[o] = pos
+		}
+		if direct, ok := ast.Unparen(l).(*ast.Ident); ok && direct == id {
+			nAssign[o]++
+			if b, ok := o.Type().Underlying().(*types.Basic); ok && b.Info()&types.IsBoolean != 0 && rhs != nil {
+				switch ast.Unparen(rhs).(type) {
+				case *ast.BinaryExpr, *ast.UnaryExpr:
+					defs[o] = rhs
+				}
+			}
+		}
+	}
+	ast.Inspect(body, func(n ast.Node) bool {
+		switch x := n.(type) {
+		case *ast.AssignStmt:
+			for i, l := range x.Lhs {
+				var r ast.Expr
+				if len(x.Rhs) == len(x.Lhs) {
+					r = x.Rhs[i]
+				}
+				note(l, r, x.Pos())
+			}
+		case *ast.IncDecStmt:
+			note(x.X, nil, x.Pos())
+		case *ast.RangeStmt:
+			if x.Key != nil {
+				note(x.Key, nil, x.Pos())
+			}
+			if x.Value != nil {
+				note(x.Value, nil, x.Pos())
+			}
+		case *ast.ValueSpec:
+			for i, nm := range x.Names {
+				var r ast.Expr
+				if i < len(x.Values) {
+					r = x.Values[i]
+				}
+				note(nm, r, x.Pos())
+			}
+		}
+		return true
+	})
+	for o, def := range defs {
+		if nAssign[o] != 1 {
+			continue
+		}
+		stale := false
+		ast.Inspect(def, func(m ast.Node) bool {
+			if id, ok := m.(*ast.Ident); ok {
+				if oo := info.ObjectOf(id); oo != nil && oo != o {
+					if _, isVar := oo.(*types.Var); isVar && lastWrite[oo] > def.Pos() {
+						// written after the condition was computed (a loop variable
+						// written by its own range statement before the body is fine)
+						stale = true
+					}
+				}
+			}
+			return true
+		})
+		if !stale {
+			ga.pe.boolDef[o] = def
 		}
 	}
 }
